@@ -167,6 +167,28 @@ def ref_deriv(t, code, mode, sp):
     return cur
 
 
+def ref_corr(t, ax, k):
+    """correlation with a 1-D kernel along tensor axis ax, replicate padding"""
+    n = t.shape[ax]
+    r = len(k) // 2
+    i = torch.arange(n)
+    out = torch.zeros_like(t)
+    for j in range(len(k)):
+        out = out + float(k[j]) * t.index_select(ax, (i + j - r).clamp(0, n - 1))
+    return out
+
+
+def ref_gaussian(t, code, sp, k0, k1):
+    D = t.ndim
+    cur = t
+    for letter in sorted(code):
+        sd = "xyz".index(letter)
+        for d in range(D):
+            cur = ref_corr(cur, D - 1 - d, k1 if d == sd else k0)
+        cur = cur / sp[sd]
+    return cur
+
+
 def interior2_mask(shape_t, margin=2):
     m = torch.zeros(shape_t, dtype=torch.bool)
     sl = tuple(slice(margin, n - margin) for n in shape_t)
@@ -195,6 +217,64 @@ def oracle(p):
         if form == "batch-iso":
             return [[r[0]] for r in spv], [[r[0]] * D for r in spv]
         return [list(r) for r in spv], spv  # batch
+
+    # --- every mode (including 'gaussian' and 'bspline'): the divisor of d/dx_a is the spacing of axis a -- explicit anisotropic
+    #     spacing (per axis, per batch item) and the default spacing of flow_derivatives (2 / (n - 1) per axis)
+    if p.get("stage", "all") in ("all", "edge"):
+        from deepali.core.kernels import gaussian1d, gaussian1d_I
+        for mode in FD_MODES + ["gaussian", "bspline"]:
+            for D in (2, 3):
+                letters, chans = "xyz"[:D], "uvw"[:D]
+                shape_t = tuple([6, 5, 7][:D]) if D == 3 else (5, 7)
+                N = 2
+                fld = torch.tensor([dy(rng, 3) for _ in range(N * D * math.prod(shape_t))], dtype=torch.float64).reshape((N, D) + shape_t)
+                spv = [[0.5, 2.0, 1.5][:D], [1.25, 0.25, 3.0][:D]]
+                keys = list(letters) + [letters[-1] + letters[0], letters[0] * 2]
+                desc = {"mode": mode, "D": D, "shape": list(shape_t)}
+                bump(f"spacing-scaling:{mode}:D{D}")
+                try:
+                    base = spatial_derivatives(fld[:, :1], which=keys, mode=mode, spacing=1.0)
+                    for form, spacing, per in (("axis", spv[0], [spv[0], spv[0]]), ("batch", spv, spv)):
+                        r = spatial_derivatives(fld[:, :1], which=keys, mode=mode, spacing=spacing)
+                        for key in keys:
+                            for b in range(N):
+                                den = 1.0
+                                for ch in key:
+                                    den *= per[b]["xyz".index(ch)]
+                                e = float((r[key][b] * den - base[key][b]).abs().max())
+                                if e > 1e-5 * (1 + float(base[key][b].abs().max())):
+                                    fail(f"C12:spatial_derivatives:{mode}:spacing-scaling",
+                                         f"{desc} spacing={spacing}: d/d{key} times the spacing of its axes differs from the unit-spacing derivative by {e:.3g} "
+                                         f"(the divisor of d/dx_a must be spacing[a])", case=desc, spacing=spacing, dkey=key)
+                                    raise StopIteration
+                    # default spacing of flow_derivatives
+                    dflt = [2 / (k - 1) for k in reversed(shape_t)]
+                    a_ = FL.flow_derivatives(fld, mode=mode)
+                    b_ = FL.flow_derivatives(fld, mode=mode, spacing=1.0)
+                    for kk in a_:
+                        ax = "xyz".index(kk.split("/d")[1])
+                        e = float((a_[kk] * dflt[ax] - b_[kk]).abs().max())
+                        if e > 1e-5 * (1 + float(b_[kk].abs().max())):
+                            fail(f"C12:flow_derivatives:{mode}:default-spacing-scaling",
+                                 f"{desc}: with spacing=None {kk} is not the unit-spacing derivative divided by 2/(n-1) of its axis (off by {e:.3g})", case=desc, dkey=kk)
+                            raise StopIteration
+                    if mode == "gaussian":
+                        k0 = gaussian1d(0.7355, normalize=False, dtype=torch.float).double().tolist()
+                        k1 = gaussian1d_I(0.7355, normalize=False, dtype=torch.float).double().tolist()
+                        r = spatial_derivatives(fld[:, :1], which=keys, mode=mode, spacing=spv)
+                        for key in keys:
+                            for b in range(N):
+                                want = ref_gaussian(fld[b, 0], key, spv[b], k0, k1)
+                                e = float((r[key][b, 0] - want).abs().max())
+                                if e > 1e-5 * (1 + float(want.abs().max())):
+                                    fail("C12:spatial_derivatives:gaussian:reference-operator",
+                                         f"{desc} spacing={spv}: d/d{key} differs from 'correlate with the (derivative of) Gaussian kernels, divide by the "
+                                         f"spacing of the differentiated axis' by {e:.3g}", case=desc, dkey=key)
+                                    raise StopIteration
+                except StopIteration:
+                    pass
+                except Exception as e:  # noqa
+                    fail(f"C12:spacing-scaling:{mode}:D{D}:raises", f"{desc}: {type(e).__name__}: {str(e)[:140]}", case=desc)
 
     # --- prewitt / sobel: exact on affine data at every point that is interior with respect to the OTHER axes, including the
     #     first and last grid point ALONG the differentiated axis (forward / backward differences there); this is where the
